@@ -154,7 +154,7 @@ ONESHOT_SHAPES = [typing.Union[P1, P2], typing.Union[P2, P1], typing.Union[int, 
 
 
 class OneShotInput(symval.Node):
-    def __init__(self, ctx, k=3):
+    def __init__(self, ctx, k=2):
         self.sel = [ctx.new("k", "int", "0 <= $ < %d" % len(ONESHOT_SHAPES)) for _ in range(k)]
         self.a = ctx.new("i", "int")
 
@@ -163,7 +163,9 @@ class OneShotInput(symval.Node):
 
 
 def oneshot_main(S, env):
-    shapes = S.node.make(env)
+    chosen = S.node.make(env)
+    r = ONESHOT_SHAPES.index(chosen[0])
+    shapes = chosen + ONESHOT_SHAPES[r:] + ONESHOT_SHAPES[:r]
     with notrace():
         # every one-shot call builds (or fetches) a codec: run the solver-chosen sequence on concrete data and compare each
         # call with a codec object built for exactly that shape
